@@ -24,6 +24,9 @@ T = {
  "C20": (True, "E2", "exhaustive enumeration of (L, bin, hop) schedules and of f32 phases on the real window code against closed forms",
          "Every (L<=24/40, bin, hop) x 2 windows x 3 frame formats: chunk count, chunk contents and size_hint before every next(); Hann at every f32 phase in [0,1] (thorough) or a 2^21-pattern grid (quick) and on f64 grids; Window iterator for n up to 64/1024.",
          "L bounded; f64 phases on a grid. Trusted: libm cos.", "DESIGN.md §4 C20"),
+ "C09": (True, "E2", "exhaustive enumeration of small directed multigraphs x output node x container on the real Processor with instrumented nodes, against an independent reachability / in-edge-multiset / topological-order oracle",
+         "All multigraphs (multiplicity 0..2, self-loops included) on <=3 nodes, all digraphs on 4 nodes (thorough: all loop-free digraphs on 5), every output node, Graph / StableGraph / StableGraph with four vacancy patterns, two consecutive process calls on a processor reused across the enumeration; sources()/sinks() on every graph.",
+         "Node counts above 4 (5 in thorough) are not explored; random larger graphs are outside this family. Trusted: rustc/LLVM, petgraph, identification of inputs by buffer address.", "DESIGN.md §4 C09"),
 }
 ALL = ["C%02d" % i for i in range(1, 21)]
 
